@@ -9,11 +9,14 @@
    SYNTAX half, token level (merged from wt-astprint): parse_show of Proofs/ExprParserProofs.v --
    the model of parse.go's precedence-climbing parser reads the tokens of any well-formed tree,
    written with the parentheses the operator table requires plus any redundant ones, back as that
-   tree -- cited below and composed with the evaluation half (C01_text_to_value).  Character level
-   (lexer: unary-minus classification, number and string scanning) and the statement-level
-   positions: no theorem yet (lexer model on wt-lex); covered by the end-to-end oracle of
-   go/cmd/soyverif/c01.go (expected output from the Spec on the generator's TREE; the parser's tree
-   compared with to_node).
+   tree -- cited below and composed with the evaluation half (C01_text_to_value).  Character level:
+   C01_text_string_to_value composes the scanner model (Model/Lexer.v lexExpr: unary-minus
+   classification by lastEmit, number and string scanning, identifiers, every operator) with the
+   parser model on the STRING ast/node.go prints for the expression (minimal parentheses, the
+   printer's spacing); strings written otherwise (redundant parentheses, other spacing, the
+   statement-level contexts `{if ...}`, `{let $x: ...}` ...) have no string-level theorem and stay
+   covered by the end-to-end oracle of go/cmd/soyverif/c01.go (expected output from the Spec on the
+   generator's TREE; the parser's tree compared with to_node).
 
    Value laws the statement names (truthiness table, equality by kind, Int/Float numerically,
    collections by identity): Properties/C20.v (C20_truthy_table, C20_equals_sym,
@@ -24,6 +27,7 @@ From Soy Require Import Proofs.SourceTieExpr Proofs.SourceTieQuote Proofs.Source
 From Soy Require Import Model.Bytes Model.Num Model.Values Model.Outcome Model.Ast Model.Interp
   Model.Escape Model.Token Model.ExprParser Model.ExprTrans Spec.Expr Spec.ExprSyntax Generated.Tables
   Proofs.EvalProofs Proofs.EvalFuncProofs Proofs.EvalMainProofs Proofs.ExprParserRules Proofs.ExprParserProofs Proofs.EvalSyntaxProofs Proofs.EvalTotalProofs.
+From Soy Require Import Model.AstPrint Model.Lexer Model.Parser Proofs.LexPrintMain Proofs.LexParseText Proofs.EvalTextProofs Proofs.InterpPos.
 Open Scope N_scope.
 
 (* ---- the evaluator ---- *)
@@ -126,6 +130,35 @@ Theorem C01_text_to_value : forall G ij cf sty path e (t : tok) (rest : list tok
        exists msg st2, walk cf fuel (set_globals G (to_node [] e)) st = (Err msg, st2) /\ frame_eq st st2).
 Proof. exact text_to_value. Qed.
 Print Assumptions C01_text_to_value.
+
+(* string -> items -> tree -> compiled tree -> value, with the REAL scanner model instead of a token
+   hypothesis: for every Spec expression with a concrete syntax whose identifiers and literals are lexically
+   well-formed ([lex_ok]: ASCII names that are not keywords, string literals in the printer's quoted form,
+   float texts of the printed shape), the string [txt] that ast/node.go's String() writes for it is scanned
+   (lexExpr model, unicode tables of the toolchain) and parsed (parse.Expr model under its own budget) to a
+   tree e' that IS to_node [] e once node positions are erased; and the walker, run on SetNodeGlobals of the
+   parser's OWN tree e' (positions and all), returns the Spec's value with the Spec's next identity, or an
+   error when the Spec has no value; in both cases scope, mode, writer are untouched. *)
+Theorem C01_text_string_to_value : forall G ij cf e txt fuel st,
+  syntax_ok e -> lex_ok (to_node [] e) -> print_node (to_node [] e) = Some txt ->
+  ExprTrans.wf_expr G e = true -> c_ij cf = ij -> (height e <= fuel)%nat ->
+  exists e' st', parse_expr_string is_letter_tbl is_digit_tbl txt = Ok (POk e' st') /\ strip_pos e' = to_node [] e /\
+    (forall v n', eval_spec G (flatten (ctx st)) ij e (next_id st) = Ok (v, n') ->
+       exists st2, walk cf fuel (set_globals G e') st = (Ok v, st2) /\ frame_eq st st2 /\ next_id st2 = n') /\
+    (forall m, eval_spec G (flatten (ctx st)) ij e (next_id st) = Err m ->
+       exists msg st2, walk cf fuel (set_globals G e') st = (Err msg, st2) /\ frame_eq st st2).
+Proof. exact text_string_to_value_full. Qed.
+Print Assumptions C01_text_string_to_value.
+
+(* what makes the step from the position-free tree to the parser's tree possible: on an expression tree the
+   walker uses node positions for s.node only -- erasing them changes neither the outcome nor any field of the
+   final state other than [cur] (the position an error would be reported at); and on EVERY node the walker
+   takes states that differ in [cur] alone to the same outcome and to states that differ in [cur] alone *)
+Theorem C01_walker_ignores_positions : forall cf fuel n st, InterpPos.expr_tree n = true ->
+  fst (walk cf fuel n st) = fst (walk cf fuel (strip_pos n) st) /\
+  InterpPos.eqc (snd (walk cf fuel n st)) (snd (walk cf fuel (strip_pos n) st)).
+Proof. exact InterpPos.walk_strip_run. Qed.
+Print Assumptions C01_walker_ignores_positions.
 
 (* ---- printing ---- *)
 
@@ -264,3 +297,15 @@ Example C01_nonvacuous_identity :
   eval_spec [] ex_env None (EBin BEq (EInt 2) (EFloat (FFin 1 1))) 100 = Ok (VBool true, 100) /\
   eval_spec [] ex_env None (EBin BEq (EStr (b "2")) (EInt 2)) 100 = Ok (VBool false, 100).
 Proof. repeat split; vm_compute; reflexivity. Qed.
+
+(* text level, by computation: the printed string of ex_expr, scanned and parsed by the models, is its tree *)
+Example C01_nonvacuous_text :
+  print_node (to_node [] ex_expr) = Some (b "($a + 2) * 3 < 10 ? null : 'x' + $l[1] + $m[''] + [1.5, $m?.k?.z]") /\
+  match print_node (to_node [] ex_expr) with
+  | Some txt => match parse_expr_string is_letter_tbl is_digit_tbl txt with
+                | Ok (POk e' _) => strip_pos e' = to_node [] ex_expr
+                | _ => False
+                end
+  | None => False
+  end.
+Proof. split; vm_compute; reflexivity. Qed.
